@@ -175,6 +175,27 @@ func checkC14(c *Ctx) {
 	}
 	checkTermSpecs(c, "C14.b", "pkg/dict", c14Specs["pkg/dict"])
 	checkToS(c)
+	// (e) implicit dispatch: fmt prints a value through its String/Error/Format/GoString method when it has one, so a
+	// method of that name on a library type changes what frt.Println / Sprintf / SInterP show for every value containing it
+	r.Rule("C14.e", "no library type has a String, Error, Format or GoString method (fmt would print through it instead of showing the value's structure)", 6)
+	for _, dir := range []string{"pkg/frt", "pkg/slice", "pkg/dict", "pkg/strings", "pkg/buf", "pkg/sys"} {
+		lm, lp, _ := libProg(c, dir)
+		if lm == nil {
+			continue
+		}
+		var ms []string
+		for _, fn := range lp.Funcs {
+			if fn.Decl != nil && fn.Decl.Recv != nil {
+				switch fn.Decl.Name.Name {
+				case "String", "Error", "Format", "GoString":
+					ms = append(ms, funcLabel(fn.Decl))
+				}
+			}
+		}
+		r.Check(len(ms) == 0, "C14.e", dir, "no-formatting-method", dir, "no type of "+dir+" has a String/Error/Format/GoString method",
+			"method(s) "+strings.Join(ms, ", ")+": fmt prints values of this type (and everything containing them) through the method, so %v / Println / string interpolation no longer show the structure the documentation describes")
+	}
+
 }
 
 var reflectKinds = map[string]string{
